@@ -46,6 +46,7 @@ type reqCfg struct {
 }
 
 type reqScn struct {
+	ld    lateDial
 	s     *sim.S
 	cfg   reqCfg
 	proto protocol.Protocol
@@ -197,6 +198,16 @@ func (c *reqScn) step(st string) {
 		c.pipes[p.Name] = p
 		s.Rec.Emit("mkpipe", "p", p.Name, "gated", op == "conngated")
 		s.Net.Listener("l1").Offer(p)
+	case "predial":
+		c.ld.predial(s, c.sock)
+	case "ansconn":
+		if c.ld.pending(s) {
+			c.npipe++
+			p := s.Net.NewPipe(fmt.Sprintf("p%d", c.npipe))
+			c.pipes[p.Name] = p
+			s.Rec.Emit("mkpipe", "p", p.Name, "gated", false)
+			c.ld.answer(s, p)
+		}
 	case "drop":
 		if p := c.pipes[arg(1)]; p != nil && !p.IsClosed() {
 			s.Rec.Emit("drop", "p", p.Name)
@@ -434,6 +445,7 @@ func runReq(t *testing.T, cfg reqCfg) sim.Result {
 			c.step(st)
 		}
 		c.step("sclose")
+		c.ld.finish(s)
 		for _, p := range c.pipes {
 			if p.Blocked() {
 				p.Release()
@@ -462,6 +474,10 @@ func reqScripted() []reqCfg {
 	sec := time.Second
 	d := reqCtxOpt{Retry: 5 * sec}
 	return []reqCfg{
+		// a connection attempt that completes after the socket was closed is refused by the closed protocol (nothing of the
+		// closed socket remains); one that completes while the socket is open is a connection like any other
+		{Opts: []reqCtxOpt{d}, Steps: []string{"predial", "sclose", "ansconn", "adv 1s"}},
+		{Opts: []reqCtxOpt{d}, Steps: []string{"predial", "send c0", "ansconn", "recv c0", "reply p1 cur c0", "predial", "sclose", "ansconn"}},
 		// plain request / reply, then retry on a silent peer, then loss of the carrying pipe
 		{Opts: []reqCtxOpt{d}, Steps: []string{"conn", "send c0", "recv c0", "reply p1 cur c0", "send c0", "recv c0", "adv 5s", "adv 4.999999s", "adv 1us", "conn", "drop p1", "reply p2 cur c0"}},
 		// stale, foreign, malformed and duplicate replies
